@@ -90,6 +90,11 @@ BASIC = {
             P("nc", "str", "r_s", default="''", compare=False),
             C("kid", "opt", ["ASTNode"], "ASTNode | None", default="None"),
         ]),
+        # a user class whose own __post_init__ rejects some values *after* the node was built and registered
+        dict(name="Picky", base="ASTNode", fields=[
+            P("a", "str", "str"),
+            P("note", "str", "picky", default="''", compare=False),
+        ], body="def __post_init__(self):\n        super().__post_init__()\n        if self.note == 'boom':\n            raise ValueError('picky')\n"),
         # children that are falsy in a boolean context
         dict(name="FLeaf", base="Leaf", fields=[], body="def __len__(self):\n        return 0\n"),
         dict(name="FUnary", base="Unary", fields=[], body="def __bool__(self):\n        return False\n"),
